@@ -172,8 +172,23 @@ def mark_record(case, f2, tid):
     for s in F["gpos"]["scripts"]:
         sc = otproject.script_of_tag(s["tag"])
         tags.append({"tag": s["tag"], "script": sc, "rtl": otproject.script_is_rtl(sc)})
-    return {"tid": tid, "n": len(order), "order": order, "glyphs": glyphs, "q": int(case.get("q", 1)),
-            "hasCats": bool(cats), "tags": tags, "F": F}
+    rec = {"tid": tid, "n": len(order), "order": order, "glyphs": glyphs, "q": int(case.get("q", 1)),
+           "hasCats": bool(cats), "tags": tags, "F": F}
+    # inputs of the writer model (specs/MarkWriter.tla): the two orders the writer sorts anchor classes by, its grouping
+    # option, and whether this font lies in the model's domain (distinct anchor names per glyph, no contextual anchors, no
+    # hand-written mark features / mark classes / GDEF block, static compile)
+    keys = sorted({a["key"] for g in glyphs for a in g["anchors"] if a["key"]})
+    rec["keysByKey"] = keys
+    rec["keysByClass"] = sorted(keys, key=lambda k: re.sub(r"[^A-Za-z0-9._]", "", "MC_" + k))
+    rec["group"] = bool((case.get("markOpts") or {}).get("groupMarkClasses", False))
+    fea = ufo.get("fea") or ""
+    modelled = not case.get("var") and not re.search(r"markClass|feature\s+(mark|mkmk|abvm|blwm)\b|table\s+GDEF", fea)
+    for n in order:
+        names = [a["n"] for a in (ufo["glyphs"].get(n) or {}).get("anchors", [])]
+        if len(set(names)) != len(names) or any(x.startswith("*") for x in names):
+            modelled = False
+    rec["model"] = bool(modelled)
+    return rec
 
 
 def ltr_glyphs(f2, extra=None):
